@@ -159,7 +159,7 @@ theorem links_removeRule (s : State) (a : Bytes) : (s.removeRule a).1.links = s.
 /-! #### `index_batch_crawl`: two stubs per (source, target) pair -/
 
 /-- number of (source, target) pairs of a batch -/
-def batchLinks (data : List (Bytes × List Bytes)) : Nat := (data.map (fun d => d.2.length)).sum
+def batchLinkCount (data : List (Bytes × List Bytes)) : Nat := (data.map (fun d => d.2.length)).sum
 
 theorem batchTargets_links : ∀ (ts : List Bytes) (s : State) (src : Bytes) (acc : LinkAcc) (tb : List Nat),
     (batchTargets s src ts acc tb).1.links = s.links ∧
@@ -197,8 +197,8 @@ theorem sourceStep_links (s : State) (acc : LinkAcc) (src : Bytes) :
 
 theorem batchSources_links : ∀ (data : List (Bytes × List Bytes)) (s : State) (acc : LinkAcc) (acc' : LinkAcc),
     (batchSources s data acc).2 = .ok acc' →
-      (batchSources s data acc).1.links.size = s.links.size + batchLinks data ∧
-      multiTotal acc'.inl = multiTotal acc.inl + batchLinks data
+      (batchSources s data acc).1.links.size = s.links.size + batchLinkCount data ∧
+      multiTotal acc'.inl = multiTotal acc.inl + batchLinkCount data
   | [], s, acc, acc', h => by
     simp only [batchSources] at h ⊢
     cases h
@@ -219,13 +219,13 @@ theorem batchSources_links : ∀ (data : List (Bytes × List Bytes)) (s : State)
         obtain ⟨c1, c2⟩ := b2 (acc2, tb) rfl
         obtain ⟨d1, d2⟩ := batchSources_links rest _ acc2 acc' h
         rw [d1, d2, addStubs_size, c1, c2, b1, a1, i1]
-        simp only [batchLinks, List.map_cons, List.sum_cons, List.length_nil]
+        simp only [batchLinkCount, List.map_cons, List.sum_cons, List.length_nil]
         exact ⟨by omega, by omega⟩
 
 /-- a successful `index_batch_crawl` appends exactly two stubs per (source, target) pair -/
 theorem batch_links_size (s : State) (data : List (Bytes × List Bytes)) (r : Report)
     (hok : (s.batch data).2 = .ok r) :
-    (s.batch data).1.links.size = s.links.size + 2 * batchLinks data := by
+    (s.batch data).1.links.size = s.links.size + 2 * batchLinkCount data := by
   unfold batch at hok ⊢
   split
   · rename_i heq
